@@ -288,7 +288,9 @@ def check(pid, tier):
 
     # ---- B
     bounded = []
-    for modname in cfg.get("bounded", []):
+    # every check that relies on proofs also validates the axioms those proofs use on machines built by the real constructors
+    drivers = list(cfg.get("bounded", [])) + (["bounded.axioms"] if reports else [])
+    for modname in drivers:
         budget = cfg.get("budget_s", {}).get(tier, 60 if tier == "quick" else 600)
         bounded.append(run_B(pid, tier, seed, world, modname, budget))
 
